@@ -43,10 +43,17 @@ static inline uint64_t F_(_size)(const M_ *m) { return m->size; }
 static inline cstl_iter F_(_begin)(const MP_ *P, const M_ *m)
 {
     if (m->size == 0) return F_(_END);
-#ifdef CSTL_CBMC
+#if defined(CSTL_CBMC) && !defined(CSTL_DETERMINISTIC)
     cstl_iter r = nondet_u64();
     CSTL_ASSUME(r < CSTL_NP && P->alive[r]);
     for (cstl_iter n = 0; n < CSTL_NP; n++) CSTL_ASSUME(!(P->alive[n] && P->kv[n].first < P->kv[r].first));
+    return r;
+#elif defined(CSTL_CBMC)
+    /* relational (C18) harnesses: ties are broken by a function of the container content (lowest node id), as
+     * libstdc++ breaks them by a function of the content (insertion order); both copies then agree */
+    cstl_iter r = F_(_END);
+    for (cstl_iter n = 0; n < CSTL_NP; n++)
+        if (P->alive[n] && (r == F_(_END) || P->kv[n].first < P->kv[r].first)) r = n;
     return r;
 #else
     cstl_iter r = F_(_END);
@@ -63,9 +70,14 @@ static inline MN_ *F_(_deref)(MP_ *P, cstl_iter it)
 static inline cstl_iter F_(_emplace)(MP_ *P, M_ *m, CSTL_K k, CSTL_V v)
 {
     cstl_iter n;
-#ifdef CSTL_CBMC
+#if defined(CSTL_CBMC) && !defined(CSTL_DETERMINISTIC)
     n = nondet_u64();
     CSTL_ASSUME(n < CSTL_NP && !P->alive[n]);
+#elif defined(CSTL_CBMC)
+    n = CSTL_NP;
+    for (cstl_iter i = 0; i < CSTL_NP; i++)
+        if (n == CSTL_NP && !P->alive[i]) n = i;
+    CSTL_ASSUME(n < CSTL_NP);
 #else
     for (n = 0; n < CSTL_NP; n++)
         if (!P->alive[n]) break;
